@@ -119,7 +119,7 @@ def showRow (r : Row) : String :=
   "{" ++ ";".intercalate ((sortBy (fun a b => a.1 < b.1) r).map (fun e => e.1 ++ "=" ++ showCell e.2)) ++ "}"
 
 def showRes (r : Res) : String :=
-  showF r.score ++ "{" ++ ";".intercalate ((sortBy (fun a b => a.1 < b.1) r.metrics).map (fun e => e.1 ++ "=" ++ e.2)) ++ "}"
+  showF r.score ++ "{" ++ ";".intercalate ((sortBy (fun a b => a.1 < b.1) (r.metrics.filter (fun e => e.1 != "score"))).map (fun e => e.1 ++ "=" ++ e.2)) ++ "}"
 
 def posLt : Pos → Pos → Bool
   | [], [] => false
